@@ -125,7 +125,7 @@ class Gen:
         return ":"
 
     def simple_mut(self, n):
-        return self.rng.choice(["%s=infn" % n, "local %s=loc" % n, ":"])
+        return self.rng.choice(["%s=infn" % n, "local %s=loc" % n, ":", "unset %s" % n, "unset %s; pr %sU; %s=after" % (n, self.newtag(), n)])
 
 
 def q(v):
